@@ -93,7 +93,27 @@ func ruleErrAll(p *Prog, r *Result) {
 			if ordinal[cname] > 1 {
 				key = fmt.Sprintf("%s#%d", key, ordinal[cname])
 			}
-			for _, ek := range []string{key, fmt.Sprintf("%s|%s", p.FName(fn), cname), "*|" + cname} {
+			tryKeys := []string{key, fmt.Sprintf("%s|%s", p.FName(fn), cname), "*|" + cname}
+			// a wrapper that only hands on the results of other functions stands for them in the exemption table
+			// (`execInElemEqual(l, e, number)` returning execNumberCompare(..) or execStringCompare(..))
+			if callee != nil {
+				for _, fw := range forwardedCallees(p, callee) {
+					k2 := fmt.Sprintf("%s|%s", p.FName(fn), fw)
+					if ordinal[cname] > 1 {
+						k2 = fmt.Sprintf("%s#%d", k2, ordinal[cname])
+					}
+					if _, ex := errAllExempt[k2]; ex {
+						tryKeys = append([]string{k2}, tryKeys...)
+						key2 := k2
+						if why, ex := errAllExempt[key2]; ex {
+							nEx++
+							r.Exempt = append(r.Exempt, key+": (through "+callee.Name()+") "+why)
+							return
+						}
+					}
+				}
+			}
+			for _, ek := range tryKeys {
 				if why, ex := errAllExempt[ek]; ex && (ek == key || !hasOrdinalVariant(ek)) {
 					nEx++
 					r.Exempt = append(r.Exempt, key+": "+why)
@@ -128,4 +148,41 @@ func hasOrdinalVariant(k string) bool {
 		}
 	}
 	return false
+}
+
+
+// forwardedCallees: the package functions whose results a function hands on unchanged in every return
+// (`return f(..)`), or nil when it does anything else with them.
+func forwardedCallees(p *Prog, g *ssa.Function) []string {
+	if len(g.Blocks) == 0 {
+		return nil
+	}
+	var out []string
+	for _, b := range g.Blocks {
+		ret := retOf(b)
+		if ret == nil {
+			continue
+		}
+		if len(ret.Results) == 0 {
+			return nil
+		}
+		var call *ssa.Call
+		for i := range ret.Results {
+			ex, ok := retVal(ret, i).(*ssa.Extract)
+			if !ok || ex.Index != i {
+				return nil
+			}
+			c, ok := ex.Tuple.(*ssa.Call)
+			if !ok || (call != nil && c != call) {
+				return nil
+			}
+			call = c
+		}
+		f := call.Call.StaticCallee()
+		if f == nil || !p.InPkg(f) {
+			return nil
+		}
+		out = append(out, callDesc(p, call))
+	}
+	return out
 }
